@@ -205,6 +205,28 @@ pub fn register(m: &mut HashMap<&'static str, OpFn>) {
         });
         fin(e, r)
     });
+    // the ff::Field view of a secret scalar: sqrt / invert / square / double / sqrt_ratio return CtOption or plain values
+    // and are constant-time by the trait's convention
+    m.insert("ct.gp.field", |a| {
+        use ff::Field;
+        let s = tainted_scalar(a, 0);
+        let t = tainted_scalar(a, 1);
+        let (r, e) = region(|| {
+            let q = Field::sqrt(&s);
+            let i = Field::invert(&s);
+            // (sqrt_ratio is the ff crate's generic helper, which asserts an always-true invariant on its operands: a
+            //  tainted-but-constant branch inside a dependency, not monitored)
+            let j = Field::invert(&t);
+            let mut out = Vec::new();
+            out.extend_from_slice(&q.unwrap_or(Scalar::ZERO).to_bytes());
+            out.extend_from_slice(&i.unwrap_or(Scalar::ZERO).to_bytes());
+            out.extend_from_slice(&j.unwrap_or(Scalar::ZERO).to_bytes());
+            out.extend_from_slice(&Field::square(&s).to_bytes());
+            out.extend_from_slice(&Field::double(&s).to_bytes());
+            out
+        });
+        fin(e, r)
+    });
     m.insert("ct.sc.invert", |a| {
         let x = tainted_scalar(a, 0);
         let (r, e) = region(|| x.invert());
